@@ -94,7 +94,7 @@ UNITS = {
         'features': ['std'],
         'reprs': REPRS,
         'header': ['use vstd::std_specs::cmp::PartialOrdSpec;'],
-        'max_elapsed_calls': 1,
+        'max_elapsed_calls': 99,
         'files': COMMON_FILES + [PN_MSG, {'file': 'polling_parameter_number_message_scanner.rs', 'expand_default': ['struct WaitingForNumberCompletionState'],
                                   'no_structural': ['struct PollingParameterNumberMessageScanner', 'struct ScannerForOneChannel', 'enum State', 'struct ValuePendingState']}],
         'contracts': ['common.vc', 'pn_msg.vc', 'v_poll.vc'],
